@@ -23,12 +23,15 @@ CHECKS: dict[str, dict] = {
                         "firmware/responder are models written from the protocol comments"],
     },
     "C08": {
-        "specs": [("qos", "send", 3000, 100000), ("qos", "burst", 800, 20000), ("qos", "episode", 800, 20000)],
+        "specs": [("qos", "send", 3000, 100000), ("qos", "burst", 800, 20000), ("qos", "episode", 800, 20000),
+                  ("qos", "twins", 800, 20000)],
         "budget": (100, 1500),
         "rule": "same plans as C07 plus `burst` (4-36 commands queued at once, mixed priorities); oracles on the "
                 "serial.write() history: retry budget, back-off doubling (hand-off to hand-off), nothing transmitted "
-                "after the verdict, one in flight, priority-then-FIFO pick order, overflow only when full. "
-                "distinct/non-trivial as C07",
+                "after the verdict, one in flight, priority-then-FIFO pick order, overflow only when full. Scenario `twins`: "
+                "byte-identical commands from 2-3 callers, never echoed; the queued ones time out or are cancelled while the first "
+                "is in flight, which must still be written exactly 1 + min(max_retries, 3) times and fail no earlier than its "
+                "cumulative back-off. distinct/non-trivial as C07",
         "real": REAL_TX, "stub": STUB_RF,
         "assumptions": ["back-off timing judged only with the duty-cycle limiter off and no disruptive fault in the run",
                         "hand-off time observed by wrapping the transport instance's write_frame"],
